@@ -223,6 +223,8 @@ var reservedNames = map[string]any{
 	"xor_eq":                   nil,
 	// the parameter of the generated comparison operators
 	"other": nil,
+	// the enum of schema versions that is generated into every namespace with protocols
+	"Version": nil,
 }
 
 func TypeSyntax(t dsl.Type) string {
